@@ -530,7 +530,7 @@ func runCheck(id, tier string, seed int) int {
 		"contract_files":            relFiles(C.Files),
 		"bounded_checks":            boundedOut,
 		"cache_hits":                cacheHits,
-		"cache_note":                "answers 'unsat' for byte-identical queries are reused for at most GOVC_CACHE_TTL seconds (default 3600) across the checks of different properties; every verification condition is still regenerated from /repo's working tree on every run; the thorough tier never uses the cache",
+		"cache_note":                "answers 'unsat' for byte-identical queries are reused for at most GOVC_CACHE_TTL seconds (default 3600) across the checks of different properties; every verification condition is still regenerated from /repo's working tree on every run; the thorough tier only reuses answers obtained by thorough runs",
 		"stale_known_findings":      staleKnown,
 		"deferred_to_other_property": deferred,
 		"vacuity_guards":            map[string]any{"cover_checks": coverTotal, "proved_satisfiable": coverSat, "refuted": 0, "note": "a cover check asks the solvers whether the precondition / the function exit is reachable under all assumptions; 'unsat' would mean a contradictory contract and fails the check; with quantified assumptions the solvers usually answer 'unknown', which is tolerated"},
@@ -620,6 +620,8 @@ func writeReplay(id, name string, content map[string]any) {
 }
 
 // reportViolation writes the replay file for a failed obligation and returns the VIOLATION line.
+var replayAttempts int
+
 func reportViolation(P *Program, id string, j *checkJob, o *Obligation) string {
 	rec := map[string]any{
 		"property":   id,
@@ -636,8 +638,15 @@ func reportViolation(P *Program, id string, j *checkJob, o *Obligation) string {
 		rec["per_solver"] = o.Result.All
 	}
 	confirmed := false
-	if rp := tryReplay(P, j, o, rec); rp {
-		confirmed = true
+	// replaying costs two model queries of up to 14 s each plus a go test run: a change that breaks one function
+	// usually fails many of its obligations, so only the first few violations of a run are replayed
+	replayAttempts++
+	if replayAttempts <= 6 {
+		if rp := tryReplay(P, j, o, rec); rp {
+			confirmed = true
+		}
+	} else {
+		rec["replay_note"] = "not attempted: more than 6 violations in this run"
 	}
 	writeReplay(id, o.Name, rec)
 	if confirmed {
